@@ -30,6 +30,10 @@ type Mention struct {
 	Pred int    `json:"pred"`
 	Kind string `json:"kind"`
 	Op   bool   `json:"op,omitempty"` // temporal literal carries an operator rather than an annotation
+	// OpType: 0 <- , 1 [- , 2 <+ , 3 [+ ; OpLo / OpHi: the operator's duration bounds in seconds (0, 0 = the old [0s, 1s])
+	OpType int `json:"opType,omitempty"`
+	OpLo   int `json:"opLo,omitempty"`
+	OpHi   int `json:"opHi,omitempty"`
 }
 
 // Rule is head p<Head> with the given body; Agg makes it a do-transform rule, Let a let-transform rule.
@@ -38,6 +42,41 @@ type Rule struct {
 	Body []Mention `json:"body"`
 	Agg  bool      `json:"agg,omitempty"`
 	Let  bool      `json:"let,omitempty"`
+	// AggFn: what the do-transform consists of: 0 count, 1 collect, 2 collect_distinct, 3 sum, 4 nothing but the
+	// group_by, 5 min and collect
+	AggFn int `json:"aggFn,omitempty"`
+}
+
+var aggText = []string{
+	"do fn:group_by(), let N = fn:count()",
+	"do fn:group_by(), let N = fn:collect(X)",
+	"do fn:group_by(), let N = fn:collect_distinct(X)",
+	"do fn:group_by(), let N = fn:sum(X)",
+	"do fn:group_by(N)",
+	"do fn:group_by(), let M = fn:min(X), let N = fn:collect(X)",
+}
+
+// aggStmts builds the statements of aggText[k] over the variables X (body) and N (head).
+func aggStmts(k int, x, n ast.Variable) []ast.TransformStmt {
+	gb := func(args ...ast.BaseTerm) ast.TransformStmt {
+		return ast.TransformStmt{Var: nil, Fn: ast.ApplyFn{Function: ast.FunctionSym{Symbol: "fn:group_by", Arity: len(args)}, Args: args}}
+	}
+	let := func(v ast.Variable, fn string, args ...ast.BaseTerm) ast.TransformStmt {
+		return ast.TransformStmt{Var: &v, Fn: ast.ApplyFn{Function: ast.FunctionSym{Symbol: fn, Arity: len(args)}, Args: args}}
+	}
+	switch k {
+	case 1:
+		return []ast.TransformStmt{gb(), let(n, "fn:collect", x)}
+	case 2:
+		return []ast.TransformStmt{gb(), let(n, "fn:collect_distinct", x)}
+	case 3:
+		return []ast.TransformStmt{gb(), let(n, "fn:sum", x)}
+	case 4:
+		return []ast.TransformStmt{gb(x)}
+	case 5:
+		return []ast.TransformStmt{gb(), let(ast.Variable{Symbol: "M"}, "fn:min", x), let(n, "fn:collect", x)}
+	}
+	return []ast.TransformStmt{gb(), let(n, "fn:count")}
 }
 
 // Case is a rule set over predicates p0..p<N-1>; Edb lists those of them that are extensional
@@ -110,7 +149,11 @@ func (c Case) text() string {
 		body := strings.Join(lits, ", ")
 		switch {
 		case r.Agg:
-			rules = append(rules, fmt.Sprintf("p%d(N) :- %s |> do fn:group_by(), let N = fn:count().", r.Head, body))
+			if r.AggFn == 4 {
+				rules = append(rules, fmt.Sprintf("p%d(X) :- %s |> do fn:group_by(X).", r.Head, body))
+			} else {
+				rules = append(rules, fmt.Sprintf("p%d(N) :- %s |> %s.", r.Head, body, aggText[r.AggFn%len(aggText)]))
+			}
 		case r.Let:
 			rules = append(rules, fmt.Sprintf("p%d(N) :- %s |> let N = fn:plus(X, 1).", r.Head, body))
 		default:
@@ -160,10 +203,14 @@ func (c Case) program() analysis.Program {
 				}
 				tl := ast.TemporalLiteral{Literal: lit}
 				if m.Op {
+					lo, hi := int64(m.OpLo), int64(m.OpHi)
+					if lo == 0 && hi == 0 {
+						hi = 1
+					}
 					iv := ast.NewInterval(
-						ast.TemporalBound{Type: ast.DurationTemporalBound, Timestamp: 0},
-						ast.TemporalBound{Type: ast.DurationTemporalBound, Timestamp: 1000000000})
-					tl.Operator = &ast.TemporalOperator{Type: ast.DiamondMinus, Interval: iv}
+						ast.TemporalBound{Type: ast.DurationTemporalBound, Timestamp: lo * 1000000000},
+						ast.TemporalBound{Type: ast.DurationTemporalBound, Timestamp: hi * 1000000000})
+					tl.Operator = &ast.TemporalOperator{Type: []ast.TemporalOperatorType{ast.DiamondMinus, ast.BoxMinus, ast.DiamondPlus, ast.BoxPlus}[m.OpType%4], Interval: iv}
 				} else {
 					iv := ast.NewInterval(
 						ast.TemporalBound{Type: ast.VariableBound, Variable: ast.Variable{Symbol: "S"}},
@@ -182,10 +229,10 @@ func (c Case) program() analysis.Program {
 		if r.Agg {
 			n := ast.Variable{Symbol: "N"}
 			clause.Head = ast.NewAtom(sym(r.Head).Symbol, n)
-			clause.Transform = &ast.Transform{Statements: []ast.TransformStmt{
-				{Var: nil, Fn: ast.ApplyFn{Function: ast.FunctionSym{Symbol: "fn:group_by", Arity: 0}}},
-				{Var: &n, Fn: ast.ApplyFn{Function: ast.FunctionSym{Symbol: "fn:count", Arity: 0}}},
-			}}
+			if r.AggFn == 4 {
+				clause.Head = ast.NewAtom(sym(r.Head).Symbol, x)
+			}
+			clause.Transform = &ast.Transform{Statements: aggStmts(r.AggFn, x, n)}
 		} else if r.Let {
 			n := ast.Variable{Symbol: "N"}
 			clause.Head = ast.NewAtom(sym(r.Head).Symbol, n)
@@ -411,6 +458,7 @@ func genCase(t *rapid.T) Case {
 			switch rapid.IntRange(0, 9).Draw(t, "transform") {
 			case 0, 1:
 				r.Agg = true
+				r.AggFn = rapid.IntRange(0, 5).Draw(t, "aggFn")
 			case 2:
 				r.Let = true
 			}
@@ -434,6 +482,11 @@ func genCase(t *rapid.T) Case {
 				case k <= 9:
 					m.Kind = kTPos
 					m.Op = rapid.Bool().Draw(t, "op")
+					if m.Op {
+						m.OpType = rapid.IntRange(0, 3).Draw(t, "opType")
+						m.OpLo = rapid.SampledFrom([]int{0, 0, 1, 86400, 3}).Draw(t, "opLo")
+						m.OpHi = m.OpLo + rapid.SampledFrom([]int{0, 1, 7 * 86400}).Draw(t, "opLen")
+					}
 				case k == 10:
 					m.Kind = kTNeg
 				default:
